@@ -17,6 +17,9 @@ import Driver.GroupCmd
 import Driver.SeekCmd
 import Driver.BinCmd
 import Driver.FlushCmd
+import Driver.ManualCmd
+import Driver.CutCmd
+import Driver.BaseCmd
 import Driver.PersistCmd
 /-
 `raindrv`: one request per line on stdin, one answer per line on stdout.
@@ -49,6 +52,9 @@ def dispatch (toks : List String) : String :=
       else if cmd.startsWith "bin." then binCmd toks
       else if cmd.startsWith "flush." then flushCmd toks
       else if cmd.startsWith "persist." then persistCmd toks
+      else if cmd.startsWith "manual." then manualCmd toks
+      else if cmd.startsWith "cut." then cutCmd toks
+      else if cmd.startsWith "base." then baseCmd toks
       else none
     match r with
     | some s => s
